@@ -43,10 +43,9 @@ package ice
 
 //@ func (*Agent).validateSelectedPair
 //@   props C04
-//@   requires C04 timeouts-non-negative: a.disconnectedTimeout >= 0 && a.failedTimeout >= 0
 //@   site call connectionStateForDisconnection#1 assert total-time-to-failure: arg2 == ite(a.failedTimeout == 0, 0, a.failedTimeout + a.disconnectedTimeout)
 //@   site call connectionStateForDisconnection#1 assert only-with-selected-pair: selectedPair != nil
-//@   site call updateConnectionState#1 assert connected-to-failed-only-without-disconnected-timeout: a.connectionState == ConnectionStateConnected && arg1 == ConnectionStateFailed ==> a.disconnectedTimeout == 0
+//@   site call updateConnectionState#1 assert connected-to-failed-only-without-disconnected-timeout: a.disconnectedTimeout >= 0 && a.failedTimeout >= 0 && a.connectionState == ConnectionStateConnected && arg1 == ConnectionStateFailed ==> a.disconnectedTimeout == 0
 //@   site call updateConnectionState#1 assert tick-edges: a.connectionState == ConnectionStateConnected || a.connectionState == ConnectionStateDisconnected ==> a.connectionState == arg1 || allowedEdge(a.connectionState, arg1)
 //@   ensures no-selected-pair-no-effect: old(a.getSelectedPair()) == nil ==> !result && unchangedExcept()
 //@   ensures reports-selected: result == (old(a.getSelectedPair()) != nil)
@@ -67,7 +66,6 @@ package ice
 // The periodic task body of connectivityChecks (closure `contact` -> loop task).
 //@ func (*Agent).connectivityChecks$1$1
 //@   props C04
-//@   requires C04 timeouts-non-negative: a.disconnectedTimeout >= 0 && a.failedTimeout >= 0
 //@   site call updateConnectionState#1 assert initial-deadline-only-while-checking: a.connectionState == ConnectionStateChecking && arg1 == ConnectionStateFailed && checkingTimeout != 0
 //@   site call ContactCandidates#1 assert no-checks-while-failed: a.connectionState != ConnectionStateFailed
 //@   ensures failed-tick-is-silent: old(a.connectionState) == ConnectionStateFailed ==> unchangedExcept("E_ice.ConnectionState")
